@@ -170,6 +170,10 @@ func ItemCollectionDeduplication(recCols ...*ItemCollection) ItemCollection {
 			} else {
 				continue
 			}
+			// NOTE: an entry without an id names nobody, it can't be a duplicate of anything
+			if len(testIt) == 0 {
+				continue
+			}
 			for _, it := range rec {
 				if testIt.Equals(it.GetID(), false) {
 					// mark the element for removal, once
